@@ -67,6 +67,9 @@ class CryptoContext:
         self.cipher_suite: Optional[CipherSuite] = None
         self.hp: Optional[HeaderProtection] = None
         self.key_phase = key_phase
+        # AEAD of the previous key phase, kept to open packets which were
+        # sent before the peer learnt about a key update
+        self.previous_aead: Optional[AEAD] = None
         self.secret: Optional[bytes] = None
         self.version: Optional[int] = None
         self._setup_cb = setup_cb
@@ -96,9 +99,18 @@ class CryptoContext:
                 crypto = next_key_phase(self)
 
         # payload protection
-        payload = crypto.aead.decrypt(
-            packet[len(plain_header) :], plain_header, packet_number
-        )
+        try:
+            payload = crypto.aead.decrypt(
+                packet[len(plain_header) :], plain_header, packet_number
+            )
+        except CryptoError:
+            if crypto is self or self.previous_aead is None:
+                raise
+            # not the next key phase: a packet protected with the previous keys
+            payload = self.previous_aead.decrypt(
+                packet[len(plain_header) :], plain_header, packet_number
+            )
+            crypto = self
 
         return plain_header, payload, packet_number, crypto != self
 
@@ -139,6 +151,7 @@ class CryptoContext:
         self.aead = None
         self.cipher_suite = None
         self.hp = None
+        self.previous_aead = None
         self.secret = None
 
         # trigger callback
@@ -146,6 +159,7 @@ class CryptoContext:
 
 
 def apply_key_phase(self: CryptoContext, crypto: CryptoContext, trigger: str) -> None:
+    self.previous_aead = self.aead
     self.aead = crypto.aead
     self.key_phase = crypto.key_phase
     self.secret = crypto.secret
@@ -183,6 +197,7 @@ class CryptoPair:
         self.aead_tag_size = 16
         self.recv = CryptoContext(setup_cb=recv_setup_cb, teardown_cb=recv_teardown_cb)
         self.send = CryptoContext(setup_cb=send_setup_cb, teardown_cb=send_teardown_cb)
+        self._update_key_confirmed = True
         self._update_key_requested = False
 
     def decrypt_packet(
@@ -193,12 +208,18 @@ class CryptoPair:
         )
         if update_key:
             self._update_key("remote_update")
+        elif (
+            not is_long_header(plain_header[0])
+            and (plain_header[0] & 4) >> 2 == self.recv.key_phase
+        ):
+            # the peer uses the current key phase, see RFC 9001 section 6.1
+            self._update_key_confirmed = True
         return plain_header, payload, packet_number
 
     def encrypt_packet(
         self, plain_header: bytes, plain_payload: bytes, packet_number: int
     ) -> bytes:
-        if self._update_key_requested:
+        if self._update_key_requested and self._update_key_confirmed:
             self._update_key("local_update")
         return self.send.encrypt_packet(plain_header, plain_payload, packet_number)
 
@@ -239,7 +260,7 @@ class CryptoPair:
 
     @property
     def key_phase(self) -> int:
-        if self._update_key_requested:
+        if self._update_key_requested and self._update_key_confirmed:
             return int(not self.recv.key_phase)
         else:
             return self.recv.key_phase
@@ -247,4 +268,7 @@ class CryptoPair:
     def _update_key(self, trigger: str) -> None:
         apply_key_phase(self.recv, next_key_phase(self.recv), trigger=trigger)
         apply_key_phase(self.send, next_key_phase(self.send), trigger=trigger)
+        # A key update which we initiate must be confirmed by a packet from the
+        # peer in the new key phase before another one can be initiated.
+        self._update_key_confirmed = trigger != "local_update"
         self._update_key_requested = False
